@@ -41,7 +41,16 @@ func init() {
 	})
 	gen.RegisterOp("c15", "retry", func(c *gen.Ctx, raw json.RawMessage) any {
 		in := gen.Into[c15RetryIn](raw)
-		m := tracer.VerifC15Retry(in.Ops)
+		var m map[string][]int
+		slow := true
+		for attempt := 0; attempt < 3 && slow; attempt++ {
+			t0 := time.Now()
+			m = tracer.VerifC15Retry(in.Ops)
+			slow = time.Since(t0) >= tracer.VerifC15RetryWait()/3 // the real timer may have fired: again
+		}
+		if slow {
+			return map[string]any{"out": [][]any{}, "slow": true}
+		}
 		names := make([]string, 0, len(m))
 		for k := range m {
 			names = append(names, k)
@@ -238,6 +247,9 @@ type c15Out struct {
 	Traces      []c15Obs             `json:"traces"`
 	Transparent bool                 `json:"transparent"`
 	Viol        string               `json:"viol,omitempty"`
+	// Slow: three attempts in a row the calls of the script took so long that the retry timer of the
+	// code under test (3 s) may have fired outside a "t" call: the observation is not judged
+	Slow bool `json:"slow,omitempty"`
 }
 
 type c15RetryIn struct {
@@ -623,7 +635,25 @@ func c15Observe(t tracer.Trace) c15Obs {
 }
 
 // c15Conn is the op: a pure function of its input.
+// c15Conn: the script's calls take microseconds; the model knows the retry timer only through the
+// script's explicit "t" calls. On a machine so loaded that the calls themselves take a good part of
+// the timer's period, the run is repeated; three slow runs in a row are set aside (Slow).
 func c15Conn(in *c15In) c15Out {
+	var out c15Out
+	for attempt := 0; attempt < 3; attempt++ {
+		var busy time.Duration
+		out, busy = c15ConnOnce(in)
+		if busy < tracer.VerifC15RetryWait()/3 {
+			return out
+		}
+	}
+	out.Slow = true
+	return out
+}
+
+func c15ConnOnce(in *c15In) (c15Out, time.Duration) {
+	t0 := time.Now()
+	var slept time.Duration
 	q, p, lens := c15Build(in.Frames)
 	if in.Raw != nil {
 		if s, ok := in.Raw["q"]; ok {
@@ -731,12 +761,15 @@ func c15Conn(in *c15In) c15Out {
 				viol("call %d: Close returned %v, the inner connection %v (inner closes %d)", ci, err, inner.cErr, inner.closed-before)
 			}
 		case "t":
+			ts := time.Now()
 			time.Sleep(tracer.VerifC15RetryWait() + 400*time.Millisecond)
+			slept += time.Since(ts)
 		}
 	}
 	sink.mu.Lock()
 	got := append([]tracer.Trace{}, sink.got...)
 	sink.mu.Unlock()
+	busy := time.Since(t0) - slept
 	out.Traces = []c15Obs{}
 	for _, t := range got {
 		out.Traces = append(out.Traces, c15Observe(t))
@@ -744,7 +777,7 @@ func c15Conn(in *c15In) c15Out {
 	sort.SliceStable(out.Traces, func(i, j int) bool { return out.Traces[i].Name < out.Traces[j].Name })
 	// release timers of traces still held back (after the observation)
 	gen.Recover(func() { conn.Close() })
-	return out
+	return out, busy
 }
 
 // ---------------------------------------------------------------- generator
